@@ -1852,6 +1852,16 @@ class Exec:
     return True
 
   def exec_Continue(self, node, env):
+    c = self.ctx.unit.contract
+    stack = getattr(self, 'loop_stack', [])
+    if c is not None and c.at_continue and stack and (
+        env.qualname == c.fn_qualname) and stack[-1] in c.at_continue:
+      from mmverif.engine import loops as loopmod
+      ns = NS(self.ctx, dict(loopmod.visible_vars(env)), heap=None,
+              old=self.ctx.entry_old_ns)
+      self.ctx.cur_line = node.lineno
+      for cl in c.at_continue[stack[-1]]:
+        self.ctx.oblige(cl.fn(ns), cl.label, 'continue', cl.props)
     raise ContinueSig()
 
   def exec_Break(self, node, env):
@@ -1970,7 +1980,13 @@ class Exec:
 
   def exec_For(self, node, env):
     from mmverif.engine import loops
-    loops.exec_for(self, node, env)
+    if not hasattr(self, 'loop_stack'):
+      self.loop_stack = []
+    self.loop_stack.append(ast.unparse(node.target))
+    try:
+      loops.exec_for(self, node, env)
+    finally:
+      self.loop_stack.pop()
 
   def exec_While(self, node, env):
     from mmverif.engine import loops
